@@ -18,6 +18,7 @@ type drySnapshot struct {
 	frames        []*jumpFrame
 	defers        int
 	nUnsupported  int
+	descCount     map[string]int
 }
 
 type dryInfo struct {
@@ -30,7 +31,11 @@ func (fv *FuncVC) snapshot() drySnapshot {
 	for k, v := range fv.counters {
 		c[k] = v
 	}
-	return drySnapshot{nObls: len(fv.obls), nFacts: len(fv.facts), counters: c, loopOrd: fv.loopOrd, ret: fv.retOrd,
+	dc := map[string]int{}
+	for k, v := range fv.loopDescCount {
+		dc[k] = v
+	}
+	return drySnapshot{descCount: dc, nObls: len(fv.obls), nFacts: len(fv.facts), counters: c, loopOrd: fv.loopOrd, ret: fv.retOrd,
 		frames: append([]*jumpFrame(nil), fv.frames...), defers: len(fv.defers)}
 }
 
@@ -38,15 +43,28 @@ func (fv *FuncVC) restore(s drySnapshot) {
 	fv.obls = fv.obls[:s.nObls]
 	fv.facts = fv.facts[:s.nFacts]
 	fv.counters = s.counters
+	fv.loopDescCount = s.descCount
 	fv.loopOrd = s.loopOrd
 	fv.retOrd = s.ret
 	fv.frames = s.frames
 	fv.defers = fv.defers[:s.defers]
 }
 
-func (fv *FuncVC) loopContract(ord int) *LoopContract {
+// loopContract finds the contract of a loop: by descriptor ("<ranged expression>.<k>" — the k-th
+// loop of the function ranging over that expression — or "for.<k>"), else by source ordinal.
+// Descriptors survive the insertion of unrelated loops.
+func (fv *FuncVC) loopContract(ord int, n ast.Node) *LoopContract {
 	if fv.fi.Contract == nil {
 		return nil
+	}
+	desc := "for"
+	if r, ok := n.(*ast.RangeStmt); ok {
+		desc = strings.ReplaceAll(fv.text(r.X), " ", "")
+	}
+	fv.loopDescCount[desc]++
+	key := fmt.Sprintf("%s.%d", desc, fv.loopDescCount[desc])
+	if lc := fv.fi.Contract.LoopsByDesc[key]; lc != nil {
+		return lc
 	}
 	return fv.fi.Contract.Loops[ord]
 }
@@ -265,7 +283,7 @@ func (fv *FuncVC) execFor(x *ast.ForStmt, st *State) *State {
 		st = fv.exec(x.Init, st)
 	}
 	fv.loopOrd++
-	lx := &loopCtx{ord: fv.loopOrd, lc: fv.loopContract(fv.loopOrd)}
+	lx := &loopCtx{ord: fv.loopOrd, lc: fv.loopContract(fv.loopOrd, x)}
 	label := fv.pendingLabel
 	fv.pendingLabel = ""
 
@@ -336,7 +354,7 @@ func (fv *FuncVC) bindRangeVar(e ast.Expr, define bool, v Val, st *State) {
 
 func (fv *FuncVC) execRange(x *ast.RangeStmt, st *State) *State {
 	fv.loopOrd++
-	lx := &loopCtx{ord: fv.loopOrd, lc: fv.loopContract(fv.loopOrd)}
+	lx := &loopCtx{ord: fv.loopOrd, lc: fv.loopContract(fv.loopOrd, x)}
 	label := fv.pendingLabel
 	fv.pendingLabel = ""
 	xt := types.Unalias(fv.typeOf(x.X))
